@@ -129,4 +129,23 @@ PROPS = {
                         "two textual copies of the format rule (Define/Write) which the model represents by one function - their agreement "
                         "in the code is checked by the campaign, not proved.",
              technique="Lean 4 proof (encode/decode round trip by induction) + differential correspondence with expectation oracle"),
+    "C05": P("Pw.Props.C05",
+             ["Pw.Props.C05.runProg_facts", "Pw.Props.C05.C05_rows_delivered", "Pw.Props.C05.C05_written",
+              "Pw.Props.C05.C05_after_completion_silent", "Pw.Props.C05.C05_one_complete", "Pw.Props.C05.C05_handler_no_ready",
+              "Pw.Props.C05.C05_bad_row_silent", "Pw.Props.C05.C05_cycle", "Pw.Props.C05.C05_blank_no_parse",
+              "Pw.Props.C05.C05_error_stops"],
+             [("simple", 3000, 250000)], ["Consts", "Writer"],
+             design_ref="§7 C05",
+             level_text="Lean theorems, by induction over ALL handler programs (interaction trees, adaptive ones included): DataRows "
+                        "emitted = Row calls that returned success; every Written() answer = rows delivered so far; wrong-arity, "
+                        "unencodable and post-completion rows emit nothing and are not counted; at most one CommandComplete; after "
+                        "completion nothing at all is emitted; a statement function can never emit ReadyForQuery; and for every query "
+                        "text, parser result and program, an answered simple Query contains exactly one ReadyForQuery, last in the cycle "
+                        "(C05_cycle); a blank query is answered without consulting the parser; an error return stops the statement loop. "
+                        "Tie: differential campaign of multi-statement queries with writer programs (good/bad/unencodable rows, Empty, "
+                        "Complete, calls after completion, Written probes, error returns, Unicode-blank queries); the oracle checks the "
+                        "cycle grammar and the writer relations on the real transcript and on the results observed inside the real "
+                        "statement functions.",
+             level_note="Trusted: Lean kernel; strings.TrimSpace (Unicode White_Space over UTF-8) is modelled; harness scripted handlers.",
+             technique="Lean 4 proof (structural induction on handler programs and statement lists) + differential correspondence"),
 }
